@@ -18,6 +18,7 @@ def gstep (dr : Bool) (c : Cols) : Op → Model.Out
   | .replace i e => Gen.replace dr c i e | .remove i => Gen.remove dr c i
   | .swapRemove i => Gen.swapRemove dr c i | .truncate k => Gen.truncate dr c k
   | .clear => Gen.clear dr c | .retain keep => Gen.retain dr false c keep none (fun _ _ => none)
+  | .retainMut keep touch => Gen.retain dr true c keep none touch
   | .extend es => Gen.extend dr c es | .resize k e => Gen.resize dr c k e
   | .splitOff i => Gen.splitOff dr c i | .extendFromSlice d => Gen.extendFromSlice dr c d
   | .append d => Gen.append dr c d
@@ -41,6 +42,7 @@ theorem gstep_eqv (dr : Bool) (op : Op) (hc : c.lock n) (hw : op.wf c) : Eqv (gs
   | truncate k => exact .of_eq (Gen.truncate_eq dr k hc)
   | clear => exact .of_eq (Gen.clear_eq dr hc)
   | retain keep => exact .of_eq (Gen.retain_eq dr false keep none hc)
+  | retainMut keep touch => exact .of_eq (Gen.retain_eq_w dr true keep none touch hc)
   | extend es => exact .of_eq (Gen.extend_eq dr c es)
   | resize k e => exact .of_eq (Gen.resize_eq dr k hc hw.1 hw.2)
   | splitOff i => exact .of_eq (Gen.splitOff_eq dr c i)
